@@ -46,10 +46,13 @@ type UserSpec struct {
 	// BackRef: as a team member this record's Manager, as a friend its Friends,
 	// point back at the parent record (a cycle through the parent)
 	BackRef bool `json:"back_ref,omitempty"`
-	// ShareCo: as a team member or friend, this record's Company is the parent's
-	// Company - the same in-memory record (`c := &Company{…}; u := User{Company: c,
-	// Friends: []*User{{Company: c}}}`).  At most one child per parent: the parent's own
-	// association pipeline saves the record and marks it visited for the child's.
+	// ShareCo: as a team member or friend of the operation's only argument record, this
+	// record's Company is the parent's Company - the same in-memory record (`c :=
+	// &Company{…}; u := User{Company: c, Friends: []*User{{Company: c}}}`).  Only when no
+	// other record of the same save batch has a company (gorm skips a batch of association
+	// records only when every one of them was visited before; the children of all parents
+	// of one level are one batch): the parent's own pipeline saves the record and marks
+	// it visited for the child's.
 	ShareCo bool `json:"share_company,omitempty"`
 }
 
@@ -99,7 +102,14 @@ func NewShared() *Shared {
 
 func (s *UserSpec) Build() *User { return s.BuildShared(nil) }
 
-func (s *UserSpec) BuildShared(sh *Shared) *User {
+// BuildShared builds an argument record (ShareCo of its direct children applies).
+func (s *UserSpec) BuildShared(sh *Shared) *User { return s.build(sh, true) }
+
+// BuildPlain builds an argument record of an operation with several argument records:
+// the children of all of them are saved in one batch, so ShareCo does not apply.
+func (s *UserSpec) BuildPlain(sh *Shared) *User { return s.build(sh, false) }
+
+func (s *UserSpec) build(sh *Shared, top bool) *User {
 	if s == nil {
 		return nil
 	}
@@ -118,7 +128,7 @@ func (s *UserSpec) BuildShared(sh *Shared) *User {
 			sh.NewCompanies[u.Company.Name] = u.Company
 		}
 	}
-	u.Manager = s.Manager.BuildShared(nil)
+	u.Manager = s.Manager.build(nil, false)
 	u.Account = s.Account.Build()
 	for _, p := range s.Pets {
 		u.Pets = append(u.Pets, p.Build())
@@ -127,13 +137,13 @@ func (s *UserSpec) BuildShared(sh *Shared) *User {
 		u.Toys = append(u.Toys, t.Build())
 	}
 	for i := range s.Team {
-		u.Team = append(u.Team, *s.Team[i].BuildShared(nil))
+		u.Team = append(u.Team, *s.Team[i].build(nil, false))
 	}
 	for i := range s.Team {
 		if s.Team[i].BackRef {
 			u.Team[i].Manager = u
 		}
-		if s.Team[i].ShareCo && u.Company != nil && onlyCompany(s.Team, i) {
+		if top && s.Team[i].ShareCo && u.Company != nil && onlyCompany(s.Team, i) {
 			u.Team[i].Company = u.Company
 		}
 	}
@@ -141,7 +151,7 @@ func (s *UserSpec) BuildShared(sh *Shared) *User {
 		u.Languages = append(u.Languages, l.Build())
 	}
 	for i := range s.Friends {
-		f := s.Friends[i].BuildShared(nil)
+		f := s.Friends[i].build(nil, false)
 		if sh != nil && f.ID != 0 {
 			if g, ok := sh.Friends[f.ID]; ok {
 				f = g
@@ -158,7 +168,7 @@ func (s *UserSpec) BuildShared(sh *Shared) *User {
 		if s.Friends[i].BackRef {
 			f.Friends = append(f.Friends, u)
 		}
-		if s.Friends[i].ShareCo && u.Company != nil && f.ID == 0 && !strings.HasPrefix(f.Name, SharedNewPrefix) && onlyCompany(s.Friends, i) {
+		if top && s.Friends[i].ShareCo && u.Company != nil && f.ID == 0 && !strings.HasPrefix(f.Name, SharedNewPrefix) && onlyCompany(s.Friends, i) {
 			f.Company = u.Company
 		}
 		u.Friends = append(u.Friends, f)
